@@ -173,5 +173,25 @@ impl Method for HighestLowestDelta {
 		proof { lemma_iter_next(pre_it, it0__, &self.window, vw); }
 //@end
 }
+
+// C08: exact constancy on a constant stream
+pub proof fn highest_const_step(pre: Highest, v: R, post: Highest, out: R)
+	requires pre.inv(), pre.window.view() =~= konst(pre.window.view().len(), v), Highest::step(&pre, &v, &post, &out)
+	ensures post.window.view() =~= konst(pre.window.view().len(), v), out == v
+{
+	assert(post.window.view() =~= konst(pre.window.view().len(), v));
+}
+pub proof fn lowest_const_step(pre: Lowest, v: R, post: Lowest, out: R)
+	requires pre.inv(), pre.window.view() =~= konst(pre.window.view().len(), v), Lowest::step(&pre, &v, &post, &out)
+	ensures post.window.view() =~= konst(pre.window.view().len(), v), out == v
+{
+	assert(post.window.view() =~= konst(pre.window.view().len(), v));
+}
+pub proof fn delta_const_step(pre: HighestLowestDelta, v: R, post: HighestLowestDelta, out: R)
+	requires pre.inv(), pre.window.view() =~= konst(pre.window.view().len(), v), HighestLowestDelta::step(&pre, &v, &post, &out)
+	ensures post.window.view() =~= konst(pre.window.view().len(), v), out@ == 0real
+{
+	assert(post.window.view() =~= konst(pre.window.view().len(), v));
+}
 } // verus!
 fn main() {}
